@@ -389,10 +389,13 @@ fn get_and_validate_timeline_indices(
 
     if num_unique_timeline_indices != expected_unique_timeline_count as usize {
         let missing_string = {
-            (0..expected_unique_timeline_count).filter(|index| !ast_spans_by_timeline.contains_key(index))
-                .map(|index| index.to_string())
-                .collect::<Vec<_>>()
-                .join(", ")
+            // (only list the first few; there could be billions)
+            let mut missing = (0..expected_unique_timeline_count).filter(|index| !ast_spans_by_timeline.contains_key(index));
+            let mut strings = missing.by_ref().take(8).map(|index| index.to_string()).collect::<Vec<_>>();
+            if missing.next().is_some() {
+                strings.push("...".to_string());
+            }
+            strings.join(", ")
         };
         let max_index_span = ast_spans_by_timeline.values().next_back().unwrap()[0];
         errors.set(emitter.emit(error!(
@@ -401,7 +404,7 @@ fn get_and_validate_timeline_indices(
         )));
     }
 
-    for timeline_index in 0..expected_unique_timeline_count {
+    for &timeline_index in ast_spans_by_timeline.keys() {
         match ast_spans_by_timeline.get(&timeline_index).map_or(0, |x| x.len()) {
             0 => {},  // already handled by "missing timeline" check above
             1 => {},
